@@ -162,6 +162,7 @@ int SimulateMips::run(int max_cycles, int step)
   char instruction[128];
   uint32_t current_pc;
 
+  enable_signal_handler();
   stop_running = false;
 
   while (stop_running == false)
